@@ -12,11 +12,12 @@ import SamlVerif.Driver.IdpServer
 import SamlVerif.Driver.Locks
 import SamlVerif.Driver.IdPOut
 import SamlVerif.Driver.SPTree
+import SamlVerif.Driver.Metadata
 
 open SamlVerif
 
 def allHandlers : List (String × Proto.P String) :=
-  Driver.SPStruct.handlers ++ Driver.Codec.handlers ++ Driver.XmlencD.handlers ++ Driver.IdPD.handlers ++ Driver.LogoutD.handlers ++ Driver.BindingsD.handlers ++ Driver.HtmlD.handlers ++ Driver.JwtD.handlers ++ Driver.MwD.handlers ++ Driver.IdpServerD.handlers ++ Driver.LocksD.handlers ++ Driver.IdPOutD.handlers ++ Driver.SPTreeD.handlers
+  Driver.SPStruct.handlers ++ Driver.Codec.handlers ++ Driver.XmlencD.handlers ++ Driver.IdPD.handlers ++ Driver.LogoutD.handlers ++ Driver.BindingsD.handlers ++ Driver.HtmlD.handlers ++ Driver.JwtD.handlers ++ Driver.MwD.handlers ++ Driver.IdpServerD.handlers ++ Driver.LocksD.handlers ++ Driver.IdPOutD.handlers ++ Driver.SPTreeD.handlers ++ Driver.MetadataD.handlers
 
 def answer (line : String) : String :=
   match (line.splitOn " ").filter (· ≠ "") with
